@@ -5,7 +5,7 @@ import glob, json, os, subprocess, sys, time
 from concurrent.futures import ThreadPoolExecutor
 os.chdir("/verif")
 jobs = []
-for m in sorted(glob.glob("seeded/*/meta.json")):
+for m in sorted([m for m in glob.glob("seeded/*/meta.json") if "/_retired/" not in m]):
     md = json.load(open(m))
     jobs.append((os.path.basename(os.path.dirname(m)), md["property"], md.get("detected_by") or []))
 def run(j):
